@@ -16,8 +16,8 @@ Proof.
   rewrite count_cons, IH, (Hf p Hp). reflexivity.
 Qed.
 
-Lemma Inv_init named selfs initok others :
-  Forall (fun p => init_pc p = true) others -> Inv (init_cfg named selfs initok others).
+Lemma Inv_init named lim fb selfs initok others :
+  Forall (fun p => init_pc p = true) others -> Inv (init_cfg named lim fb selfs initok others).
 Proof.
   intros Hall. unfold Inv, init_cfg. cbn [sh thr].
   rewrite !count_cons.
@@ -25,9 +25,9 @@ Proof.
   unfold InvN. cbn. repeat split; intros; try discriminate; try lia. all: try (left; split; reflexivity).
 Qed.
 
-Theorem Inv_reachable sched named selfs initok others :
+Theorem Inv_reachable sched named lim fb selfs initok others :
   Forall (fun p => init_pc p = true) others ->
-  Inv (run sched (init_cfg named selfs initok others)).
+  Inv (run sched (init_cfg named lim fb selfs initok others)).
 Proof.
   intros Hall. apply run_invariant; [intros c i c' HI Hs; eapply step_inv; eauto|].
   apply Inv_init; exact Hall.
